@@ -7,6 +7,9 @@ LEVEL = 'exploration'
 QUICK_S = 40
 THOROUGH_S = 420
 EXHAUSTIVE_CLAIM = True
+TECHNIQUE = ('runtime monitoring: round-trip oracle on model_from_str - the harness renders a value to literal text with its own '
+             'encoder and compares the value textX produces with the original (type and value), exhaustively over short strings '
+             'and on random strings, integers, floats and booleans')
 RULE = ('exhaustive: every string over {a,space,",\',\\,newline} up to length 4 (quick) / 6 (thorough) '
         'not ending in a backslash, in both quote styles, alone / followed by 2 more strings on the same '
         'line / through BASETYPE and an abstract Value rule; plus random unicode strings, ints (up to 80 '
